@@ -18,6 +18,7 @@ import (
 func init() {
 	engine.Register("V-INPUT-PURE", ruleVInputPure)
 	engine.Register("V-BOOL", ruleVBool)
+	engine.Register("V-TWO-CURRENT", ruleVTwoCurrent)
 }
 
 // queryFamily: functions whose receiver type is a query, comparator or validator type
@@ -998,4 +999,170 @@ func boolProps(msg string) []string {
 		props = append(props, "C03", "C05", "C06", "C19")
 	}
 	return props
+}
+
+// ---------------------------------------------------------------------------------------------
+// V-TWO-CURRENT: evaluation compares every left member against right[0] only, so a comparison
+// whose two operands are both per-member (`@`-rooted) must be rejected at parse time, for every
+// comparator. The guard is the panic in a grammar action that is dominated by exactly: "the query
+// is a comparison", "its left operand is per-member", "its right operand is per-member".
+
+// perMemberOperandTypes: query types with a node field whose evaluation uses the member list.
+func perMemberOperandTypes(p *load.Program) map[*types.Named]bool {
+	out := map[*types.Named]bool{}
+	for fn, list := range queryComputeFuncs(p) {
+		rt := fn.Signature.Recv().Type()
+		if pt, ok := rt.(*types.Pointer); ok {
+			rt = pt.Elem()
+		}
+		nt, ok := rt.(*types.Named)
+		if !ok {
+			continue
+		}
+		st, ok := nt.Underlying().(*types.Struct)
+		if !ok {
+			continue
+		}
+		hasNode := false
+		for i := 0; i < st.NumFields(); i++ {
+			if p.Roles.NodeIface != nil && types.Identical(st.Field(i).Type(), p.Roles.NodeIface) {
+				hasNode = true
+			}
+		}
+		if hasNode && list.Referrers() != nil && len(*list.Referrers()) > 0 {
+			out[nt] = true
+		}
+	}
+	return out
+}
+
+func ruleVTwoCurrent(c *engine.Context) *report.Rule {
+	r := report.NewRule("V-TWO-CURRENT", "a comparison of two per-member operands is rejected at parse time for every comparator (evaluation reads only right[0])", 1)
+	p := c.P
+	sh := findCompareQueryShape(c)
+	if sh == nil {
+		r.InfraFail("anchor unresolved: compare query shape")
+		return r
+	}
+	per := perMemberOperandTypes(p)
+	if len(per) == 0 {
+		r.InfraFail("anchor unresolved: per-member operand query type")
+		return r
+	}
+	blocks, execute := actionBlocksOf(c)
+	if execute == nil {
+		r.InfraFail("anchor unresolved: Execute")
+		return r
+	}
+	// classify a condition: which of the three guard facts it is (0 none, 1 is-comparison, 2 left per-member, 3 right per-member)
+	classify := func(cond ssa.Value) int {
+		ex, ok := cond.(*ssa.Extract)
+		if !ok || ex.Index != 1 {
+			return 0
+		}
+		ta, ok := ex.Tuple.(*ssa.TypeAssert)
+		if !ok || !ta.CommaOk {
+			return 0
+		}
+		pt, ok := ta.AssertedType.(*types.Pointer)
+		if !ok {
+			return 0
+		}
+		nt, ok := pt.Elem().(*types.Named)
+		if !ok {
+			return 0
+		}
+		if types.Identical(nt, sh.Q) {
+			return 1
+		}
+		if !per[nt] {
+			return 0
+		}
+		// X = load(field j of load(field i of cq))
+		ld, ok := ta.X.(*ssa.UnOp)
+		if !ok {
+			return 0
+		}
+		fa, ok := ld.X.(*ssa.FieldAddr)
+		if !ok {
+			return 0
+		}
+		ld2, ok := fa.X.(*ssa.UnOp)
+		if !ok {
+			return 0
+		}
+		fa2, ok := ld2.X.(*ssa.FieldAddr)
+		if !ok {
+			return 0
+		}
+		switch fa2.Field {
+		case sh.leftField:
+			return 2
+		case sh.rightField:
+			return 3
+		}
+		return 0
+	}
+	found := 0
+	var ks []int
+	for k := range blocks {
+		ks = append(ks, k)
+	}
+	sort.Ints(ks)
+	for _, k := range ks {
+		inAct := map[*ssa.BasicBlock]bool{}
+		for _, b := range blocks[k] {
+			inAct[b] = true
+		}
+		for _, b := range blocks[k] {
+			if _, isPanic := b.Instrs[len(b.Instrs)-1].(*ssa.Panic); !isPanic {
+				continue
+			}
+			have := map[int]bool{}
+			var extra []string
+			for _, dc := range dominatingConds(b) {
+				if !inAct[dc.at.Block()] {
+					continue
+				}
+				cl := classify(dc.cond)
+				if cl != 0 && dc.taken {
+					have[cl] = true
+					continue
+				}
+				extra = append(extra, fmt.Sprintf("%s is %v", condText(dc.cond), dc.taken))
+			}
+			if !(have[2] && have[3]) {
+				continue
+			}
+			found++
+			r.Instances++
+			ok := have[1] && len(extra) == 0
+			r.Oblige(ok)
+			r.Sample("action %d: panic guarded by is-comparison=%v left-per-member=%v right-per-member=%v, additional conditions: %d", k, have[1], have[2], have[3], len(extra))
+			if !ok {
+				r.Violation(fmt.Sprintf("action %d: two-per-member-operands guard is conditional", k), p.RelPos(b.Instrs[len(b.Instrs)-1].Pos()),
+					"the parse-time rejection of a comparison between two per-member operands additionally depends on: %s — for the other cases such a comparison is built, and evaluation compares every member against the first member's right value only (type assertion panic when that is the absence marker)", strings.Join(extra, "; "))
+			}
+		}
+	}
+	if found == 0 {
+		r.Oblige(false)
+		r.Violation("no parse-time guard against two per-member operands", p.RelPos(execute.Pos()),
+			"no grammar action rejects a comparison whose left and right operands are both per-member queries; evaluation reads only right[0]")
+	}
+	return r
+}
+
+func condText(v ssa.Value) string {
+	switch x := v.(type) {
+	case *ssa.Extract:
+		if ta, ok := x.Tuple.(*ssa.TypeAssert); ok {
+			return "type test for " + types.TypeString(ta.AssertedType, func(*types.Package) string { return "" })
+		}
+	case *ssa.BinOp:
+		return "comparison " + x.Op.String()
+	case *ssa.Call:
+		return "call " + x.Call.String()
+	}
+	return v.String()
 }
